@@ -159,13 +159,31 @@ def bign_key_ops(rng, tier, sch, f, prefix):
                 break
         pub(x, rng.randrange(p), "twist", "505")
     Gq1 = E.mul(q - 1, G)
-    for d, k in ((0, "d=0"), (q, "d=q"), (q + 1, "d=q+1"), ((1 << (8 * no)) - 1, "d=max")):
+    for d, k in ((0, "d=0"), (q, "d=q"), (q + 1, "d=q+1"), ((1 << (8 * no)) - 1, "d=all-ones"), (2 * q if 2 * q < (1 << (8 * no)) else q + 2, "d=2q|q+2")):
         kp(d, 0, y, k, "504")
+        # the public key that the out-of-range scalar WOULD produce (d mod q) must not rescue it
+        Qd = E.mul(d % q, G) if d % q else None
+        if Qd is not None:
+            kp(d, Qd[0], Qd[1], k + ",Q=(d mod q)G", "504")
     kp(1, 0, y, "d=1", "0")
     kp(q - 1, Gq1[0], Gq1[1], "d=q-1", "0")
     kp(q - 1, 0, y, "d=q-1,Q=G", "505")
     pub(0, y, "G", "0")
+    pub(0, p - y, "-G", "0")
     pub(0, 0, "(0,0)", "505")
+    pub(p - 1, y, "x=p-1", None)
+    pub(p + 1, y, "x=p+1", "505")
+    pub(0, p, "y=p", "505")
+    pub(0, p - 1, "y=p-1", None)
+    pub(0, y ^ 1, "G-y-bit", "505")
+    kp(1, 0, p - y, "d=1,Q=-G", "505")
+    kp(q - 1, 0, p - y, "d=q-1,Q=-G", "0")
+    kp(2, 0, y, "d=2,Q=G", "505")
+    kp(q, 0, p - y, "d=q,Q=-G", "504")
+    kp(0, 0, 0, "d=0,Q=(0,0)", "504")
+    kp(1, 0, 0, "d=1,Q=(0,0)", "505")
+    kp(1, p, y, "d=1,x=p", "505")
+    kp(1, 0, y + p if y + p < (1 << (8 * no)) else y ^ 1, "d=1,y+p", "505")
     pub(p, y, "x=p", "505")
     pub(0, y + p if y + p < (1 << (8 * no)) else y, "y+p", "505" if y + p < (1 << (8 * no)) else "0")
     pub((1 << (8 * no)) - 1, y, "x=max", "505")
@@ -375,6 +393,69 @@ def dstu_base_point(rng, f):
         Q = E.mul(c, P)
         if Q is not None:
             return E, Q
+
+
+def dstu_point_ops(rng, tier, W, f, prefix, full):
+    """dstuPointVal: ERR_OK ⇔ x, y field elements ∧ on the curve ∧ n·P = O; 401 = ERR_BAD_POINT, 502 = parameters not
+    accepted by dstuEcCreate.  Boundary points for every curve; `full` adds the ones that cost a scalar multiplication
+    in the oracle (points of the curve outside the subgroup, kG)."""
+    ops = []
+    pre = "W32 " if W == 32 else ""
+    p0, p1, p2, p3, A = [int(x) for x in f[:5]]
+    m = p0
+    no = (m + 7) // 8
+    f = list(f)
+    md = dstu_field(W, p0, p1, p2, p3)
+    B, n, c = lev(f[5][: 2 * no]), lev(f[6][: 2 * no]), int(f[7])
+    E = Ec2(Gf2(md), A, B)
+    if lev(f[8]) == 0:
+        _, Q = dstu_base_point(rng, f)
+        f[8] = hx(Q[0], no) + hx(Q[1], no) + "00" * (128 - 2 * no)
+    x, y = lev(f[8][: 2 * no]), lev(f[8][2 * no: 4 * no])
+    par = " ".join(f)
+
+    def add(px, py, k, exp):
+        ops.append(Op(pre + "dstupoint %s %s" % (par, hx(px, no) + hx(py, no)), exp, "%s:point:%s" % (prefix, k), W))
+
+    def judge(px, py):
+        if px >> m or py >> m or not E.on((px, py)):
+            return "401"
+        return "0" if E.mul(n, (px, py)) is None else "401"
+    add(x, y, "G", "0")
+    add(x, x ^ y, "-G", "0")
+    add(0, 0, "(0,0)", "401")
+    add(x, y ^ 1, "y-bit", "401")
+    add(x ^ 1, y, "x-bit", judge(x ^ 1, y) if full else ("401" if not E.on((x ^ 1, y)) else None))
+    add(x, y ^ (1 << (m - 1)), "y-top-bit", "401")
+    top = (1 << (8 * no)) - 1
+    if 8 * no > m:
+        add(x | (1 << m), y, "x>=2^m", "401")          # not a field element (same residue as G)
+        add(x, y | (1 << m), "y>=2^m", "401")
+        add(top, y, "x=all-ones", "401")
+    add((1 << m) - 1, y, "x=2^m-1", "401" if not E.on(((1 << m) - 1, y)) else None)
+    add(y, x, "swapped", "401" if not E.on((y, x)) else None)
+    # the point of order 2: (0, sqrt B)
+    sb = B
+    for _ in range(m - 1):
+        sb = E.f.sqr(sb)
+    assert E.on((0, sb))
+    add(0, sb, "order-2", "401")
+    if full:
+        k = rng.randrange(2, n)
+        Q = E.mul(k, (x, y))
+        add(Q[0], Q[1], "kG", "0")
+        add(Q[0], Q[0] ^ Q[1], "-kG", "0")
+        # a point of the curve outside the subgroup of order n (cofactor > 1)
+        for _ in range(40):
+            P = E.lift_x(rng.getrandbits(m))
+            if P is not None and E.mul(n, P) is not None:
+                add(P[0], P[1], "on-curve-wrong-order", "401")
+                break
+        # parameters that dstuEcCreate refuses
+        g = list(f)
+        g[4] = "2"
+        ops.append(Op(pre + "dstupoint %s %s" % (" ".join(g), hx(x, no) + hx(y, no)), "502", "%s:point:A=2" % prefix, W))
+    return ops
 
 
 def dstu_ops(rng, tier, W, f, prefix, heavy, light=False):
@@ -936,6 +1017,7 @@ def generate(ctx, std, bels, lr_stb, lr_pfok, ri_margin=0, only_w=None, light=Fa
         for (sch, name), f in std.items():
             if sch == "dstu" and int(f[0]) == 163:
                 ops += dstu_ops(rng, tier, 32, f, "dstu-0/w32", True, False)
+                ops += dstu_point_ops(rng, tier, 32, f, "dstu-0/w32", False)
             if sch in ("bign", "bign96"):
                 ops.append(Op("W32 %sval %s" % (sch, " ".join(f)), "0", "%s/w32:std" % sch, 32))
             elif sch == "g12s":
@@ -956,8 +1038,11 @@ def generate(ctx, std, bels, lr_stb, lr_pfok, ri_margin=0, only_w=None, light=Fa
             if light and m not in (163, 257):
                 continue
             ops += dstu_ops(rng, tier, 64, f, prefix, heavy, light_c)
+            if (tier != "quick" and not light) or m in (163, 233):
+                ops += dstu_point_ops(rng, tier, 64, f, prefix, tier != "quick" or m == 163)
             if only_w is None and (m == 163 or tier != "quick"):
                 ops += dstu_ops(rng, tier, 32, f, prefix + "/w32", heavy, light_c or tier == "quick")
+                ops += dstu_point_ops(rng, tier, 32, f, prefix + "/w32", tier != "quick" and m <= 233)
         elif sch == "stb99":
             if tier != "quick" or name in ("test", "1.2.112.0.2.0.1176.2.3.3.1"):
                 ops += stb99_ops(rng, tier, f, prefix)
